@@ -22,6 +22,14 @@ use svmc::{run_check, Ctx, Level};
 #[global_allocator]
 static A: alloc::Counting = alloc::Counting;
 
+/// numerals at and around the edges of the integer types a decoder may parse a length into
+const LEN_NUMERALS: [&str; 22] = [
+    "-9223372036854775809", "-9223372036854775808", "-2147483649", "-2147483648", "-3", "-2", "-1", "-0", "0", "00", "1",
+    "2147483647", "2147483648", "4294967295", "4294967296", "9223372036854775806", "9223372036854775807", "9223372036854775808",
+    "18446744073709551614", "18446744073709551615", "18446744073709551616", "99999999999999999999999",
+];
+/// frame positions that read a length
+const LEN_TEMPLATES: [&str; 8] = ["${L}\r\n", "${L}\r\nab\r\n", "${L}\r\n\r\n", "*{L}\r\n", "*{L}\r\n:1\r\n", "*1\r\n${L}\r\nab\r\n", "*2\r\n$1\r\na\r\n${L}\r\nab\r\n", "*1\r\n*{L}\r\n"];
 const TOKENS: [&str; 18] = ["*", "$", "+", "-", ":", "_", "0", "1", "2", "-1", "-2", "9223372036854775807", "99999999999", "\r\n", "\r", "\n", "a", "\""];
 const BYTES: [u8; 7] = [b'*', b'$', b'1', b'-', b'\r', b'\n', b'a'];
 const TOWER_DEPTHS: [u64; 6] = [10, 100, 1_000, 10_000, 100_000, 1_000_000];
@@ -45,6 +53,11 @@ enum Gen {
     Byte(usize),
     Edit(usize),
     Tower,
+    /// boundary lattice of announced lengths: every numeral around the edges of i32 / u32 / i64 /
+    /// u64 = usize (and one past) in every frame position that reads a length (seeded change C21
+    /// parsed the length as usize and added 2 without saturating: only usize::MAX - 1 and
+    /// usize::MAX reach it)
+    Len,
 }
 impl Gen {
     fn name(&self) -> String {
@@ -53,6 +66,7 @@ impl Gen {
             Gen::Byte(n) => format!("byte{n}"),
             Gen::Edit(d) => format!("edit{d}"),
             Gen::Tower => "tower".into(),
+            Gen::Len => "len".into(),
         }
     }
     fn parse(s: &str) -> Option<Gen> {
@@ -68,6 +82,9 @@ impl Gen {
         if s == "tower" {
             return Some(Gen::Tower);
         }
+        if s == "len" {
+            return Some(Gen::Len);
+        }
         None
     }
     fn size(&self) -> u64 {
@@ -76,6 +93,7 @@ impl Gen {
             Gen::Byte(n) => (BYTES.len() as u64).pow(*n as u32),
             Gen::Edit(d) => edits(*d).len() as u64,
             Gen::Tower => (TOWER_DEPTHS.len() * 2) as u64,
+            Gen::Len => (LEN_NUMERALS.len() * LEN_TEMPLATES.len()) as u64,
         }
     }
     /// (input bytes, is the canonical representative of its byte string within this generator)
@@ -108,6 +126,11 @@ impl Gen {
                 (out, true)
             }
             Gen::Edit(d) => (edits(*d)[idx as usize].clone(), true),
+            Gen::Len => {
+                let num = LEN_NUMERALS[(idx as usize) / LEN_TEMPLATES.len()];
+                let t = LEN_TEMPLATES[(idx as usize) % LEN_TEMPLATES.len()];
+                (t.replace("{L}", num).into_bytes(), true)
+            }
             Gen::Tower => {
                 let d = TOWER_DEPTHS[(idx / 2) as usize] as usize;
                 let mut out = Vec::with_capacity(d * 4 + 4);
@@ -718,6 +741,8 @@ fn first_generator(gen: Gen, input: &[u8], l_tok: usize, n_byte: usize) -> bool 
         Gen::Byte(_) => !in_tok(),
         // edits(2) already excludes edits(1); towers are longer than anything else
         Gen::Edit(_) | Gen::Tower => !in_tok() && !in_byte(),
+        // a handful of short lattice members are token strings too; count them where they come first
+        Gen::Len => !in_tok() && !in_byte(),
     }
 }
 
@@ -774,6 +799,7 @@ fn main() {
         phase1.extend((0..=8usize).map(Gen::Byte));
         phase1.push(Gen::Edit(1));
         phase1.push(Gen::Tower);
+        phase1.push(Gen::Len);
         let phase2: Vec<Gen> = if quick { vec![] } else { vec![Gen::Tok(6), Gen::Byte(9), Gen::Edit(2)] };
         let conc = std::thread::available_parallelism().map(|n| n.get()).unwrap_or(8).min(16);
         let chunk = 10_000u64;
